@@ -54,6 +54,9 @@ var c02Site = map[string]string{
 	"b/m":     "{% from './lib' import f %}{{ tick() }}{{ f(v) }}",
 	"plain":   "{% for i in l %}{{ i|upper }}{{ tick() }}{% endfor %}{{ m.k }}{{ p.Name }}{{ v }}",
 	"inc2":    "{% include 'plain' %}+{% include 'a/p' %}+{% include 'b/p' with {'q': v} only %}",
+	// loop state read where it outlives the loop body that set it: after an inner loop, after the loop itself,
+	// inside an included template and inside a macro called from the body
+	"loops":   "{% for a in l %}{% for b in l %}{{ b }}{{ tick() }}{% endfor %}{% if not loop.last %},{% endif %}{{ loop.index }}{{ tick() }}{% include 'a/p' %}{{ loop.revindex }}{% endfor %}{{ loop.length }}{{ tick() }}{% for k, x in m %}{{ loop.index0 }}{{ k }}{% endfor %}{{ loop.first ? 'F' : 'f' }}",
 	"hot":     "H0:{{ v }}{{ tick() }}",
 	"opt":     "[{% include 'late' ignore missing %}]{{ tick() }}",
 	"fsdoc":   "H0:{{ tick() }}",
@@ -119,9 +122,9 @@ func (propC02) Gen(seed uint64, ex map[string]bool) interface{} {
 			sc.Preload = append(sc.Preload, n)
 		}
 	}
-	renderable := []string{"a/x", "b/y", "a/sub/z", "b/w", "a/m", "b/m", "plain", "inc2", "long", "a/p", "b/p", "sbox", "nosb", "sbox", "nosb"}
+	renderable := []string{"a/x", "b/y", "a/sub/z", "b/w", "a/m", "b/m", "plain", "inc2", "long", "a/p", "b/p", "sbox", "nosb", "sbox", "nosb", "loops", "loops"}
 	if ex["relative-names"] {
-		renderable = []string{"plain", "inc2", "long", "a/p", "b/p", "sbox", "nosb"}
+		renderable = []string{"plain", "inc2", "long", "a/p", "b/p", "sbox", "nosb", "loops"}
 	}
 	if len(sc.Extra) > 0 {
 		renderable = append(renderable, names[len(names)-1])
